@@ -117,6 +117,10 @@ def skeletons(tier):
                                                   ("f2", "id2", ("arr", ("u", 4), 1)), ("g", "id3", ("struct", "In")),
                                                   ("f1_1", 8, ("u", 5)), ("f1_0", 9, ("i", 3))])],
                                   impls=[("can", "S", None, {"id": 1}, sig)])))
+    # a sibling field spelled like an unrolled element of the array next to it (identifiers may contain '_<digits>')
+    out.append(("unroll_name_clash", Schema(structs=[("S", [("a", "id0", ("arr", ("u", "w0"), 2)), ("a_0", "id1", ("u", 8)),
+                                                            ("b", "id2", ("i", "w1")), ("a_2", "id3", ("u", 3))])],
+                                            impls=can)))
     if tier == "thorough":
         out.append(("wide", Schema(structs=[("S", [(f"f{i}", f"id{i}", ("u" if i % 2 else "i", f"w{i % 3}"))
                                                    for i in range(5)])], impls=can)))
@@ -194,7 +198,7 @@ def c04_case(args):
     pre_bitstart, c = SymInt.fresh("pre_bitstart", 0, 2 ** 40)
     assume.append(c)
     feats = {"desc": f"{name}/unroll={unroll}", "skeleton": name, "unroll": unroll,
-             "has_enum": bool(skel.enums), "nsym": len(sym)}
+             "has_enum": bool(skel.enums), "nsym": len(sym), "obligation": "", "duplicate_names": []}
     base = concretize_skel(skel, default_asg(skel))
     text = base.text()
     from ..prime import prime, decoy_text
@@ -271,8 +275,8 @@ def c04_case(args):
             ref = leaf_list(conc, "S", unroll)
             names = [str(v.name) for v in values]
             norm = lambda n: re.sub(r"[^0-9A-Za-z]+", "_", n)
-            # names: pairwise distinct, and (up to the separator spelling) the hierarchical reference names in order
-            if [norm(n) for n in names] != [norm(r_[0]) for r_ in ref] or len(set(names)) != len(names) or not unchanged:
+            # names: (up to the separator spelling) the hierarchical reference names in order ...
+            if [norm(n) for n in names] != [norm(r_[0]) for r_ in ref] or not unchanged:
                 what = (f"leaf names/order {names} != reference {[r_[0] for r_ in ref]}" if unchanged
                         else "generate() mutated the schema tree")
                 decide(eng, pc, z3.BoolVal(True), prop="C04", ob_id=ob + "|order", res=res, known=known,
@@ -280,6 +284,16 @@ def c04_case(args):
                 continue
             res["obligations"].append(ob + "|order")
             res["discharged"] += 1
+            # ... and pairwise distinct (an obligation of its own: the bit ranges below are judged either way)
+            if len(set(names)) != len(names):
+                dup = sorted({n for n in names if names.count(n) > 1})
+                decide(eng, pc, z3.BoolVal(True), prop="C04", ob_id=ob + "|unique-names", res=res, known=known,
+                       features=dict(feats, obligation="unique-names", duplicate_names=dup), env=env_of(),
+                       make_replay=lambda m: dict(mk(m), expect_unique_names=True),
+                       what=f"leaf names are not unique: {dup} in {names} on {feats['desc']}")
+            else:
+                res["obligations"].append(ob + "|unique-names")
+                res["discharged"] += 1
             # widths and tiling, symbolically (reference widths over the symbolic sites)
             skel_ref = leaf_list(_order_like(skel, asg), "S", unroll, width_of=lambda t: _sym_width(t, sym, skel))
             cs = []
